@@ -473,6 +473,15 @@ class Evaluator:
                 if getattr(self, "heap_mode", False):
                     if inner is not None and inner["k"] in ("CallExpr", "CXXMemberCallExpr", "CXXOperatorCallExpr"):
                         return self.ev(n["c"][0])       # the object a call returns by reference: its identity is the call's value
+                    if inner is not None and inner["k"] in ("DeclRefExpr", "MemberExpr") and (inner.get("ct") or "").replace("const ", "").strip() in self.prog.records:
+                        # a reference (variable, parameter or member) bound to a modelled object: its address is that object's identity
+                        try:
+                            k__ = self.lkey(inner)
+                        except Unknown:
+                            k__ = None
+                        v__ = self.env.get(k__) if k__ is not None else None
+                        if (isinstance(v__, int) and not isinstance(v__, bool) and v__ != 0) or (isinstance(v__, tuple) and v__ and v__[0] == "ref"):
+                            return v__
                     return self.lkey(n["c"][0])
                 if inner is not None and inner["k"] in ("DeclRefExpr", "MemberExpr") and (self.tinfo(inner.get("ct")) or {}).get("k") in ("ptr", "int", "bool", "enum") \
                         and not (inner["k"] == "DeclRefExpr" and inner.get("dk") in ("Function", "CXXMethod")):
@@ -830,6 +839,23 @@ class Evaluator:
                     pass
             self.trace.append((nm, None, n))
             raise Unknown("call " + str(nm))
+        if k == "CXXDeleteExpr":
+            # delete p: recorded on the fold's root (`deleted`: addresses in order) and in the trace; the destructor of a modelled
+            # class runs on the object's cells first
+            pv_ = self.ev(n["c"][0]) if n.get("c") else None
+            root = self
+            while getattr(root, "_parent", None) is not None:
+                root = root._parent
+            if not hasattr(root, "deleted"):
+                root.deleted = []
+            root.deleted.append(pv_)
+            self.trace.append(("delete", [pv_], n))
+            if isinstance(pv_, int) and pv_ != 0 and not n.get("array"):
+                pt_ = (n["c"][0].get("ct") or "").replace("const ", "").rstrip("* ").strip()
+                cls_ = (getattr(self, "dyn_type", None) or {}).get(pv_, pt_)
+                if cls_ in self.prog.records and (getattr(self, "objects", False) or self.file_local_class(cls_)):
+                    self._destroy("@%d." % pv_, cls_, None, n)
+            return 0
         if k == "CXXNewExpr":
             # a fresh object: its address is a new integer; constructor arguments are evaluated and recorded
             # fresh addresses are unique across the evaluators of one fold (inlined callees allocate too)
@@ -1230,7 +1256,7 @@ class Evaluator:
                                             self.env.pop(key_, None)
                                 fill(d["name"], i0_, (self.tinfo(d.get("ct")) or {}).get("extent"))
                                 continue
-                            if (d.get("ct") or "").rstrip().endswith("&") and not (d.get("ct") or "").startswith("const "):
+                            if (d.get("ct") or "").rstrip().endswith("&") and i0_ is not None and (i0_["k"] in ("DeclRefExpr", "MemberExpr", "ArraySubscriptExpr") or (i0_["k"] == "UnaryOperator" and i0_.get("op") == "*")):
                                 # a local reference to an object or variable: an alias of that lvalue
                                 try:
                                     tgt_ = self.lkey(d["init"])
